@@ -1065,9 +1065,12 @@ class slice(Stream):
     def update(self, x, who=None, metadata=None):
         if (self.state >= self.star and (self.state - self.star) % self.step == 0
                 and not (self.end is not None and self.state >= self.end)):
-            self.emit(x, metadata=metadata)
+            result = self._emit(x, metadata=metadata)
+        else:
+            result = None
         self.state += 1
         self._check_end()
+        return result
 
     def _check_end(self):
         if self.end is not None and self.state >= self.end:
